@@ -769,21 +769,8 @@ func loopHeaderOf(blk *ssa.BasicBlock) *ssa.BasicBlock {
 		if !isHeader {
 			continue
 		}
-		// is there a back edge t->h with t reachable from blk without passing h?
-		stop := map[*ssa.BasicBlock]bool{h: true}
-		par := reach([]*ssa.BasicBlock{blk}, nil, stop)
-		if blk == h {
-			// blk is itself header if some pred is dominated by it
-			isHdr := false
-			for _, pr := range h.Preds {
-				if h.Dominates(pr) {
-					isHdr = true
-				}
-			}
-			if !isHdr {
-				continue
-			}
-		} else if _, ok := par[h]; !ok {
+		// membership in the natural loop of h (blocks that reach a back-edge source of h without passing h)
+		if !loopBody(h)[blk] {
 			continue
 		}
 		if best == nil || best.Dominates(h) {
